@@ -16,7 +16,8 @@ from rules.casefold import r11_1
 from rules.utilfn import r10_7
 from rules.utilfn import r04_7
 from rules.utilfn import r20_7
-RULES = [('R04.5i', r04_5_iter), ('R10.5', r10_5), ('R05.9', r05_9), ('R05.8', r05_8), ('R05.7', r05_7), ('R14.1', r14_1), ('R02.1', r02_1), ('R14.3', r14_3), ('R09.1', r09_1), ('R19.1', r19_1), ('R01.5', r01_5), ('R05.6', r05_6), ('R05.3', r05_3), ('R05.4', r05_4), ('R04.5r', r04_5_reader), ('R05.5', r05_5), ('R15.4', r15_4), ('R05.1', r05_1), ('R11.1', r11_1), ('R10.7', r10_7), ('R04.7', r04_7), ('R20.7', r20_7)]
+from rules.utilfn import r03_7
+RULES = [('R04.5i', r04_5_iter), ('R10.5', r10_5), ('R05.9', r05_9), ('R05.8', r05_8), ('R05.7', r05_7), ('R14.1', r14_1), ('R02.1', r02_1), ('R14.3', r14_3), ('R09.1', r09_1), ('R19.1', r19_1), ('R01.5', r01_5), ('R05.6', r05_6), ('R05.3', r05_3), ('R05.4', r05_4), ('R04.5r', r04_5_reader), ('R05.5', r05_5), ('R15.4', r15_4), ('R05.1', r05_1), ('R11.1', r11_1), ('R10.7', r10_7), ('R04.7', r04_7), ('R20.7', r20_7), ('R03.7', r03_7)]
 EXPLANATION = """R14.1 AhoCorasick::is_match = try_find(input.earliest(true)).expect(..).is_some(); Input::earliest / set_earliest write only the
 earliest flag and get_earliest returns it. R02.1 in try_find_fwd earliest = match_kind().is_standard() || input.get_earliest() and each of
 the five calls of try_find_fwd_imp receives a flag consistent with the branch it sits on. R14.3 inside try_find_fwd_imp the flag is used
